@@ -28,6 +28,7 @@ package codegen
 //@     && (bits(T) > 32 ==> !fits("int32", lo, hi) && !fits("uint32", lo, hi))
 
 //@ func adjustForSignedBounds
+//@   option float64facts
 //@   props C15
 //@   requires int-min: nMin != nil ==> is_int(*nMin)
 //@   requires int-max: nMax != nil ==> is_int(*nMax)
@@ -39,6 +40,7 @@ package codegen
 //@   ensures [C15] narrow: nonempty(nMin, nMax) && (nMin == nil || *nMin < 0) ==> narrowest(result0, nMin, nMax)
 
 //@ func adjustForUnsignedBounds
+//@   option float64facts
 //@   props C15
 //@   shape result0 = "uint8" | "uint16" | "uint32" | "uint64"
 //@   requires nonneg: nMin != nil && *nMin >= 0
@@ -59,6 +61,7 @@ package codegen
 //@ spec fp_zone_ok_any(p) = p == nil || !is_float(*p) || abs(as_float(*p)) <= pow2(53) || abs(as_float(*p)) >= pow2(54)
 
 //@ func getMinIntType
+//@   option float64facts
 //@   props C15
 //@   requires fp-zone: fp_zone_ok(minimum) && fp_zone_ok(maximum) && fp_zone_ok_any(exclusiveMinimum) && fp_zone_ok_any(exclusiveMaximum)
 //@   shape result0 = "int8" | "int16" | "int32" | "int64" | "uint8" | "uint16" | "uint32" | "uint64"
@@ -70,6 +73,7 @@ package codegen
 //@ spec prim_name(t) = dyn(t) == "*codegen.PointerType" ? t.Type.Type : t.Type
 
 //@ func PrimitiveTypeFromJSONSchemaType @integer
+//@   option float64facts
 //@   props C15
 //@   shape jsType = "integer"
 //@   shape format = "" | "date"
